@@ -1931,6 +1931,8 @@ class TableValuedAlias(LateralFromClause, Alias):
         ("_tableval_type", InternalTraversal.dp_type),
         ("_render_derived", InternalTraversal.dp_boolean),
         ("_render_derived_w_types", InternalTraversal.dp_boolean),
+        ("joins_implicitly", InternalTraversal.dp_boolean),
+        ("_is_lateral", InternalTraversal.dp_boolean),
     ]
 
     def _init(
@@ -7461,6 +7463,7 @@ class TextualSelect(SelectBase, ExecutableReturnsRows, Generative):
         [
             ("element", InternalTraversal.dp_clauseelement),
             ("column_args", InternalTraversal.dp_clauseelement_list),
+            ("positional", InternalTraversal.dp_boolean),
         ]
         + SupportsCloneAnnotations._clone_annotations_traverse_internals
         + HasCTE._has_ctes_traverse_internals
